@@ -7,6 +7,7 @@ import (
 	"sort"
 	"strings"
 	"sync"
+	"sync/atomic"
 	"testing"
 	"time"
 
@@ -668,4 +669,87 @@ func optDeltaName(a, b database.SearchOptions) string {
 		return "term-cap"
 	}
 	return "same"
+}
+
+// TestC11_LRUBound hammers one full cache with inserts of new keys while other goroutines
+// read its size in every way there is: whatever order the operations are taken to happen
+// in, no reader may ever see more entries than the capacity (or a negative count).
+func TestC11_LRUBound(t *testing.T) {
+	rec := stat.For("C11")
+	rec.Rule("LRU bound under contention: W in [1,4] writers put fresh keys into a full cache of capacity 1-8 (some deleting / clearing as well) while R in [1,4] readers loop over Size / Stats / Keys, 3000-20000 operations each; built with -race. Oracle: every observed Size(), Stats().Size and len(Keys()) lies in [0, capacity] (true at every point of any one-at-a-time order).")
+	rapid.Check(t, func(t *rapid.T) {
+		capacity := rapid.IntRange(1, 8).Draw(t, "cap")
+		writers := rapid.IntRange(1, 4).Draw(t, "writers")
+		readers := rapid.IntRange(1, 4).Draw(t, "readers")
+		n := rapid.SampledFrom([]int{3000, 8000, 20000}).Draw(t, "ops")
+		withDeletes := rapid.Bool().Draw(t, "deletes")
+		ttl := time.Duration(0)
+		if rapid.IntRange(0, 3).Draw(t, "ttl") == 0 {
+			ttl = time.Microsecond * 50 // expiring entries and sweeps shrink the cache concurrently
+		}
+		c := cache.NewLRUCache(capacity, ttl)
+		for i := 0; i < capacity; i++ {
+			c.Put(fmt.Sprintf("seed%d", i), i)
+		}
+		var wg sync.WaitGroup
+		var stop int32
+		var mu sync.Mutex
+		bad := ""
+		report := func(s string) {
+			mu.Lock()
+			if bad == "" {
+				bad = s
+			}
+			mu.Unlock()
+			atomic.StoreInt32(&stop, 1)
+		}
+		for w := 0; w < writers; w++ {
+			wg.Add(1)
+			go func(w int) {
+				defer wg.Done()
+				for i := 0; i < n && atomic.LoadInt32(&stop) == 0; i++ {
+					c.Put(fmt.Sprintf("w%d-%d", w, i), i)
+					if withDeletes && i%7 == 0 {
+						c.Delete(fmt.Sprintf("w%d-%d", w, i-1))
+					}
+					if withDeletes && i%1999 == 0 {
+						c.Clear()
+					}
+					if ttl > 0 && i%257 == 0 {
+						c.CleanupExpired()
+					}
+				}
+			}(w)
+		}
+		for r := 0; r < readers; r++ {
+			wg.Add(1)
+			go func(r int) {
+				defer wg.Done()
+				for i := 0; i < n && atomic.LoadInt32(&stop) == 0; i++ {
+					switch (i + r) % 3 {
+					case 0:
+						if s := c.Size(); s < 0 || s > capacity {
+							report(fmt.Sprintf("Size() = %d on a cache of capacity %d", s, capacity))
+						}
+					case 1:
+						if s := c.Stats(); s.Size < 0 || s.Size > capacity || s.Capacity != capacity {
+							report(fmt.Sprintf("Stats() = %+v on a cache of capacity %d", s, capacity))
+						}
+					default:
+						if k := c.Keys(); len(k) > capacity {
+							report(fmt.Sprintf("Keys() lists %d keys on a cache of capacity %d", len(k), capacity))
+						}
+					}
+				}
+			}(r)
+		}
+		if !waitOrHang(&wg, 120*time.Second) {
+			t.Fatalf("LRU operations did not finish within 120 s (deadlock)\n%s", dumpStacks())
+		}
+		if bad != "" {
+			saveCase("C11", "lrubound", map[string]any{"test": "TestC11_LRUBound", "note": "schedule-dependent; re-run the check", "capacity": capacity, "writers": writers, "readers": readers, "failure": bad})
+			t.Fatalf("%s (%d writers inserting fresh keys, %d readers)", bad, writers, readers)
+		}
+		rec.Case(true, map[string]any{"lru_bound": true, "capacity": capacity, "writers": writers, "readers": readers, "ops_each": n, "ttl": ttl.String()}, "lru-bound")
+	})
 }
